@@ -56,12 +56,22 @@ impl Instant {
         Instant::now().duration_since(*self)
     }
     pub fn checked_add(&self, d: Duration) -> Option<Instant> {
-        // mirror tokio/std: overflow of the underlying representation is None.
-        // The simulated clock saturates far in the future instead of failing so
-        // that absurd timeouts behave as "never".
+        // mirror std (Linux: seconds in an i64): an instant + duration whose seconds leave that range is
+        // None, and `+` panics on it. Below that limit the simulated clock saturates far in the future
+        // (584 years), so that merely absurd timeouts behave as "never".
+        let secs = self.ns / 1_000_000_000;
+        if d.as_secs() > (i64::MAX as u64).saturating_sub(secs) {
+            return None;
+        }
         Some(Instant {
             ns: self.ns.saturating_add(dur_ns(d)),
         })
+    }
+    /// what tokio itself falls back to when a deadline overflows (about 30 years ahead)
+    pub fn far_future() -> Instant {
+        Instant {
+            ns: kernel::now_ns().saturating_add(86_400 * 365 * 30 * 1_000_000_000),
+        }
     }
     pub fn checked_sub(&self, d: Duration) -> Option<Instant> {
         self.ns.checked_sub(dur_ns(d)).map(|ns| Instant { ns })
@@ -71,9 +81,7 @@ impl Instant {
 impl std::ops::Add<Duration> for Instant {
     type Output = Instant;
     fn add(self, rhs: Duration) -> Instant {
-        Instant {
-            ns: self.ns.saturating_add(dur_ns(rhs)),
-        }
+        self.checked_add(rhs).expect("overflow when adding duration to instant")
     }
 }
 impl std::ops::AddAssign<Duration> for Instant {
@@ -157,7 +165,8 @@ pub fn sleep_until(deadline: Instant) -> Sleep {
 }
 
 pub fn sleep(d: Duration) -> Sleep {
-    sleep_until(Instant::now() + d)
+    // like tokio: an overflowing deadline is replaced by one far in the future
+    sleep_until(Instant::now().checked_add(d).unwrap_or_else(Instant::far_future))
 }
 
 pub struct Timeout<F> {
